@@ -8,6 +8,17 @@ def pairingSzudzik (a b : UInt64) : UInt64 :=
 def pairing2 (a b : UInt64) : UInt64 := pairingSzudzik a b
 def pairing3 (a b c : UInt64) : UInt64 := pairing2 (pairing2 a b) c
 
+/-- `pairing4` -/
+def pairing4 (a b c d : UInt64) : UInt64 := pairing2 (pairing2 a b) (pairing2 c d)
+
+/-- `pairing_cantor` on numbers small enough not to overflow (the code adds and multiplies with
+plain `+`/`*`: beyond `u64` a debug build panics and a release build wraps) -/
+def pairingCantor (a b : Nat) : Nat := (a + b) * (a + b + 1) / 2 + b
+
+/-- `pairing_hopcroft`: both arguments are asserted positive -/
+def pairingHopcroft (a b : Nat) : Except Fault Nat :=
+  if a = 0 ∨ b = 0 then .error .assertion else .ok ((a + b - 2) * (a + b - 1) / 2 + a)
+
 class MyHash (α : Type) where
   hash : α → UInt64
 
